@@ -9,7 +9,7 @@ CLAIMED = {
         technique='symbolic execution of the real to_si/from_si on z3 Real proxies; SMT (z3, LRA/NRA) decides inverse, linearity, factor-vs-oracle and container obligations per enumerated unit/parameter combination',
         text='For every (flow unit, parameter, mass unit, reaction order, darcy_weisbach) combination - enumerated completely - the real '
              'conversion code is executed on a symbolic real value and z3 proves, for ALL real values, that from_si/to_si are mutual inverses, '
-             'linear, equal to the physical-definition factor table within 1e-8 relative, and container-preserving. Bounded only in container '
+             'linear, equal to the physical-definition factor table within 1e-8 relative, and container-preserving (the inverse also holds against the caller\'s own container read after both calls, i.e. arguments are not converted in place). Bounded only in container '
              'size (2 entries); floats are modelled as reals.',
         note='Trusted: z3; reals-for-floats (replay in floats with 1e-12 relative tolerance); the oracle factor table in vf/props/c17.py written '
              'from the EPANET unit definitions.',
@@ -107,7 +107,7 @@ CLAIMED['C05'] = dict(
     engine='symx+ctrlplane',
     technique='symbolic execution of the real TankLevelCondition/ValueCondition.evaluate and of the real run_sim loop (Newton solve stubbed; tank inflow forked per solve; control thresholds symbolic); all feasible paths of presolve backtracking, priority ordering and post-solve re-solving explored; SMT (z3 LIRA) decides that every control whose condition holds on a recorded state has its commanded status',
     text='Unit: for all levels, previous levels, thresholds and inflows the level condition is true iff the relation holds, and when it becomes true the backtrack is the whole number of seconds since the crossing. '
-         'System: tank network with up to 2 (thorough 3) user controls on one pipe (two thresholds crossed in one step, different priorities, level / head / junction-pressure sources), thresholds symbolic, '
+         'System: tank network with up to 2 (thorough 3) user controls on one pipe (two thresholds crossed in one step, different priorities, level / head / junction-pressure sources; one configuration targets the tank inlet itself: closed by the level limit, released once the tank has drained), thresholds symbolic, '
          'tank inflow forked per solve: at EVERY recorded step every control whose condition holds has its commanded status unless an equal/higher-priority triggered control commands otherwise, '
          'and a control that changes the pipe does so within 2 s of flow of its threshold (partial step).',
     note='Trusted: z3; contract H for the stubbed solve; tank geometry concrete in the multi-control configurations; assume-guarantee lemma on the backtrack (proved at unit level); a hysteresis pair cycling over two '
